@@ -12,6 +12,7 @@ LinkPkts == [link : {1, 2}, fee : {4101}, size : Sizes]
 LinkFilters == {S!NoFilter} \cup {[k |-> "link", v |-> n] : n \in 1..3}
 FeePkts == {p \in [link : {1, 2}, fee : {4101, 4357, 8197}, size : Sizes] : << p.link, p.fee >> \in {<<1, 4101>>, <<1, 4357>>, <<2, 4101>>, <<2, 8197>>}}
 FeeFilters == {[k |-> "fee", v |-> f] : f \in {4101, 4357, 8197, 4102}} \cup {[k |-> "stave", v |-> x] : x \in {69, 133, 197}}
+              \cup {[k |-> "link", v |-> n] : n \in 1..2}        \* (link filters on streams where a FEE id is not tied to one link)
 svars == << i, out, seen, filt, pay, errs, done >>
 case == << stream, filter, skip, src, cut >>
 Init == S!Init /\ RInit
